@@ -336,6 +336,9 @@ def replay_valid(p):
         elif what == 'povm':
             Es = R.rand_povm(p['d'], p['nt'], seed=seed)
             bad = np.abs(Es.sum(axis=0) - np.eye(p['d'])).max() > 1e-8 or any(np.linalg.eigvalsh((E_ + E_.conj().T) / 2).min() < -1e-8 or np.abs(E_ - E_.conj().T).max() > 1e-8 for E_ in Es)
+        elif what == 'kraus':
+            K = R.rand_kraus_op(p['nt'], p['din'], p['dout'], seed=seed)
+            bad = K.shape != (p['nt'], p['dout'], p['din']) or np.abs(sum(x.conj().T @ x for x in K) - np.eye(p['din'])).max() > 1e-8
         elif what == 'unitary':
             U = R.rand_haar_unitary(p['d'], seed=seed)
             bad = np.abs(U.conj().T @ U - np.eye(p['d'])).max() > 1e-8
@@ -633,6 +636,72 @@ def run(chk):
         Gv = A.plain(H.cx_array(f'huG{d}_', (d, d)))
         chk.add(f'lemma U2 [{d}x{d}]: (Q P)^dag (Q P) == P (Q^dag Q) P for a real diagonal P (identity)', [], ir.band_all(eqm(mmul(dagm(mmul(Qp, Ph)), mmul(Qp, Ph)), mmul(Ph, mmul(dagm(Qp), Qp), Ph))), key='matrix lemma', replay=rp)
         chk.add(f'lemma U3 [{d}x{d}]: Q^dag Q = I, P_j^2 = 1  =>  P (Q^dag Q) P == I', eqm(Gv, eye_(d)) + [H.eq_sc(ph[j] * ph[j], 1) for j in range(d)], ir.band_all(eqm(mmul(Ph, Gv, Ph), eye_(d))), key='matrix lemma', replay=rp)
+    # rand_kraus_op(nt, 2, dout): K_n = z_n W with W = inv(V sqrt(D))^dag, (D, V) = eigh(Z^dag Z): sum_n K_n^dag K_n == W^dag (Z^dag Z) W == I
+    def kraus_block(nt, din, dout):
+        chk.configurations += 1
+        lam = [S.sc_var(f'krl{nt}{din}{dout}_{j}') for j in range(din)]
+        V = H.cx_array(f'krv{nt}{din}{dout}_', (din, din))
+        cap, mm_log = [], []
+
+        def eigh_stub(x):
+            cap.append(x)
+            return A.sym_array(np.array(lam, dtype=object), np.float64), V
+
+        def inv_stub(x):
+            return adj_inv(x)
+
+        def hook(r, a_, b_):
+            mm_log.append((r, a_, b_))
+            return r
+        fac2 = with_linalg({'eigh': eigh_stub, 'inv': inv_stub})
+        pre = [(l_ > 0).n for l_ in lam]
+
+        def once():
+            _FRESH[0] = 0
+            TOTAL[0] = 0
+            del cap[:], mm_log[:]
+            A.MATMUL_HOOK[0] = hook
+            try:
+                return R.rand_kraus_op(nt, din, dout, seed=SymStream(f'v<kraus{nt}{din}{dout}>'))
+            finally:
+                A.MATMUL_HOOK[0] = None
+        try:
+            paths, st = H.run_paths(once, pre, np_facade=fac2, extra_globals=eg, feas_timeout_ms=1000, max_paths=8)
+        except S.EngineError as e:
+            chk.engine_error(f'rand_kraus_op({nt},{din},{dout})', e)
+            return
+        chk.add_path_stats(st)
+        rp = ('c10v', {'what': 'kraus', 'nt': nt, 'din': din, 'dout': dout})
+        for pi, path in enumerate(paths):
+            if path.status != 'return':
+                chk.add(f'rand_kraus_op({nt},{din},{dout}) raises {type(path.value).__name__}: {path.value}', pre + path.pc + path.facts, ir.FALSE, key='rand_kraus_op raises', replay=rp)
+                continue
+            with path.resume():
+                Kr = A.plain(path.value)
+                Zt = np.asarray(mm_log[0][2], dtype=object)              # Z = z0.reshape(-1, din): second operand of the first product Z^dag Z
+                Vp = A.plain(V)
+                E = np.array([[S.as_sc(Vp[i, j]) * lam[j].sqrt() for j in range(din)] for i in range(din)], dtype=object)     # V sqrt(D)
+                Wm = dagm(A.plain(adj_inv(A.wrap(E.copy()))))
+                base = pre + path.pc + path.facts + [c for k_, c in path.side]
+                ok = Kr.shape == (nt, dout, din) and len(cap) == 1 and Zt.shape == (nt * dout, din)
+                chk.add(f'rand_kraus_op({nt},{din},{dout}) K1: the matrix handed to eigh is Z^dag Z (Z = stacked draws)', base, ir.band_all(eqm(A.plain(cap[0]), mmul(dagm(Zt), Zt))) if ok else ir.FALSE, key='rand_kraus_op invalid', replay=rp)
+                if ok:
+                    Zr = Zt.reshape(nt, dout, din)
+                    for n in range(nt):
+                        chk.add(f'rand_kraus_op({nt},{din},{dout}) K2: K_{n} == z_{n} W with W = inv(V sqrt(D))^dag', base, ir.band_all(eqm(Kr[n], mmul(Zr[n], Wm))), key='rand_kraus_op invalid', replay=rp)
+        # generic lemmas: K3 sum_n (z_n W)^dag (z_n W) == W^dag (Z^dag Z) W ; K4: A = E E^dag => inv(E) A inv(E)^dag == I
+        Zg = A.plain(H.cx_array(f'kgZ{nt}{din}{dout}_', (nt * dout, din)))
+        Wg = A.plain(H.cx_array(f'kgW{nt}{din}{dout}_', (din, din)))
+        Zgr = Zg.reshape(nt, dout, din)
+        chk.add(f'lemma K3 [{nt},{din},{dout}]: sum_n (z_n W)^dag (z_n W) == W^dag (Z^dag Z) W (identity)', [],
+                ir.band_all(eqm(sum((mmul(dagm(mmul(Zgr[n], Wg)), mmul(Zgr[n], Wg)) for n in range(nt)), np.zeros((din, din), dtype=object)), mmul(dagm(Wg), mmul(dagm(Zg), Zg), Wg))), key='matrix lemma', replay=rp)
+        if din == 2:
+            Eg = A.plain(H.cx_array('kgE', (2, 2)))
+            Eig = A.plain(adj_inv(A.wrap(Eg.copy())))
+            cg = S.ctx()
+            chk.add('lemma K4 [2x2]: E invertible  =>  inv(E) (E E^dag) inv(E)^dag == I (adjugate inverse; with the eigh contract A = (V sqrt D)(V sqrt D)^dag this is W^dag A W = I)',
+                    [c for k_, c in cg.side if k_ == 'div'] + list(cg.facts), ir.band_all(eqm(mmul(Eig, mmul(Eg, dagm(Eg)), dagm(Eig)), eye_(2))), key='matrix lemma', replay=rp)
+    kraus_block(2, 2, 2)
     unitary_block(2)
     if not quick:
         unitary_block(3)
